@@ -311,8 +311,17 @@ def run(prop, tier, seed):
         lock = lockfamily.phase(tier, seed, wd, info, verdict, prop)
         if lock["drift_count"]:
             print("DRIFT: lock-state runs differ from LockState.tla in %d place(s); first: %s" % (lock["drift_count"], lock["drift"][0]))
+        # "... or the client ... has no authenticated identity": whose permission entries are scanned is decided by the certificate that was
+        # VERIFIED.  Every client method over real TLS for callers that present a genuine certificate alone, with other names among its
+        # alternative names, under another spelling, or FOLLOWED by an unverified certificate naming another client (ApiTrace.IdentityIsCN)
+        import apifamily
+        ident = apifamily.matrix_phase("C07", tier, wd, verdict, min_served=6, min_refused=0,
+                                       select=lambda c: c["cred"].startswith("valid") and "signer" not in c["cred"] and not c["method"].startswith("DKG."))
+        info["states"] += ident["states"]
+        info["transitions"] += ident["transitions"]
         rc = verdict.finish()
         cov = dict(states=info["states"], transitions=info["transitions"], traces_validated_against_impl=len(index) + len(cases), lock_state=lock,
+                   identity_over_real_tls=dict(cells=ident["cells"], obtained_data=ident["served"], server_setups=ident["modes"]),
                    samples=[dict(kind="checker-row", case=cases[0], expected=expect[cases[0]["id"]][0]), dict(kind="service-ops", lines=lines[:6])],
                    table_rows=dict(tables["counts"]), checker_rows_replayed=nrows, service_configurations=len(scenarios), service_operations=nops,
                    service_operations_served=nserved, configurations_against_the_dirk_binary=len(bscs), drift=drift[:10], drift_count=len(drift), exhaustive=True,
@@ -488,6 +497,9 @@ def run_c18(tier, seed):
 
 
 def replay(prop, path):
+    if json.load(open(path))["replay"].get("api"):
+        import apifamily
+        return apifamily.replay(prop, path)
     if json.load(open(path))["replay"].get("lock"):
         import lockfamily
         return lockfamily.replay(prop, path)
